@@ -16,6 +16,7 @@ import (
 	"os/exec"
 	"regexp"
 	"sort"
+	"strconv"
 	"strings"
 	"sync"
 	"sync/atomic"
@@ -70,6 +71,7 @@ type Ctx struct {
 	lastCase  *os.File
 	known          []knownPat
 	answered       int64 // atomic: lines answered by the driver
+	desync         bool
 	knownHits      map[string]int
 	unmatched      map[string]int
 	nUnmatchedKept int
@@ -156,6 +158,7 @@ func (c *Ctx) Case(op string, input string) {
 	h.Write([]byte(line))
 	c.lineHashQ <- h.Sum64()
 	c.pending <- line
+	c.drvIn.WriteString("#" + strconv.Itoa(c.seq) + " ")
 	c.drvIn.WriteString(line)
 	c.drvIn.WriteByte('\n')
 	c.seq++
@@ -172,6 +175,16 @@ func (c *Ctx) collect(r io.Reader) {
 		v := sc.Text()
 		line := <-c.pending
 		hash := <-c.lineHashQ
+		// the driver echoes the sequence number of the case it answers
+		want := "#" + strconv.Itoa(c.evals) + " "
+		if strings.HasPrefix(v, want) {
+			v = v[len(want):]
+		} else if !c.desync {
+			c.desync = true
+			v = "bad protocol-desync expected " + strings.TrimSpace(want) + " got " + firstN(v, 40)
+		} else {
+			v = "bad protocol-desync (after the first)"
+		}
 		c.evals++
 		atomic.AddInt64(&c.answered, 1)
 		f := strings.Fields(line)
@@ -409,6 +422,13 @@ wait:
 
 // progress: lines answered by the driver so far
 func (c *Ctx) progress() int64 { return atomic.LoadInt64(&c.answered) }
+
+func firstN(s string, n int) string {
+	if len(s) > n {
+		return s[:n]
+	}
+	return s
+}
 
 // guard runs f and maps a Go panic to the outcome "panic".
 func guard(f func() string) (out string) {
